@@ -78,14 +78,18 @@ func vHdrObs(h http.Header, names []string) vsx {
 	return vL(es...)
 }
 
-func claim(c string) options.HeaderValue { return options.HeaderValue{ClaimSource: &options.ClaimSource{Claim: c}} }
+func claim(c string) options.HeaderValue {
+	return options.HeaderValue{ClaimSource: &options.ClaimSource{Claim: c}}
+}
 func claimP(c, p string) options.HeaderValue {
 	return options.HeaderValue{ClaimSource: &options.ClaimSource{Claim: c, Prefix: p}}
 }
 func claimB(c, pw string) options.HeaderValue {
 	return options.HeaderValue{ClaimSource: &options.ClaimSource{Claim: c, BasicAuthPassword: &options.SecretSource{Value: []byte(pw)}}}
 }
-func secretV(v string) options.HeaderValue { return options.HeaderValue{SecretSource: &options.SecretSource{Value: []byte(v)}} }
+func secretV(v string) options.HeaderValue {
+	return options.HeaderValue{SecretSource: &options.SecretSource{Value: []byte(v)}}
+}
 
 func driveC07(t *testing.T, out *vEmitter) {
 	now := time.Unix(1790000000, 0).UTC()
@@ -122,12 +126,18 @@ func driveC07(t *testing.T, out *vEmitter) {
 	spoofSets := []func(name string) [][2]string{
 		func(n string) [][2]string { return nil },
 		func(n string) [][2]string { return [][2]string{{n, "SPOOF-a"}} },
-		func(n string) [][2]string { return [][2]string{{strings.ToLower(n), "SPOOF-a"}, {strings.ToUpper(n), "SPOOF-b"}} },
+		func(n string) [][2]string {
+			return [][2]string{{strings.ToLower(n), "SPOOF-a"}, {strings.ToUpper(n), "SPOOF-b"}}
+		},
 		func(n string) [][2]string { return [][2]string{{n, "SPOOF-a, SPOOF-b"}, {n, "SPOOF-c"}} },
-		func(n string) [][2]string { return [][2]string{{vMixCase(n), "SPOOF-a"}, {"X-Other", "keep"}, {"X-Other", "keep2"}} },
+		func(n string) [][2]string {
+			return [][2]string{{vMixCase(n), "SPOOF-a"}, {"X-Other", "keep"}, {"X-Other", "keep2"}}
+		},
 		// repeated with an EMPTY first occurrence: Header.Get sees "", the value list is not empty
 		func(n string) [][2]string { return [][2]string{{n, ""}, {n, "SPOOF-a"}} },
-		func(n string) [][2]string { return [][2]string{{strings.ToLower(n), " "}, {n, "SPOOF-b"}, {strings.ToUpper(n), ""}} },
+		func(n string) [][2]string {
+			return [][2]string{{strings.ToLower(n), " "}, {n, "SPOOF-b"}, {strings.ToUpper(n), ""}}
+		},
 		func(n string) [][2]string { return [][2]string{{n, ""}} },
 	}
 	for ci, cfg := range configs {
@@ -518,7 +528,6 @@ func vC07Legacy(t *testing.T, out *vEmitter) {
 	out.Stat("legacy_configs", n)
 	_ = fmt.Sprint
 }
-
 
 // vRefClaim: the values a session holds for a claim name, read straight from its fields.
 func vRefClaim(s *sessionsapi.SessionState, claim string) []string {
